@@ -15,6 +15,8 @@
                                                               dlen = psf->datalength, hdr = numSampleFrames (AIFF)
       r <ty> <i|f> <count>                  -> ret=<n> err=0 data=<hex of the cells written, then a5 fill>
       seek <offset> <whence>                -> ret=-1 err=E   (sf.seekable = 0: sf_seek refuses everything)
+      cload <hex> dlen=<n> [hdr=<n>]        -> frames=<n>     the same file on the C-shaped handle (Sf.Gsm.CHandle)
+      cr <count>                            -> ret=<n> data=<hex>     sf_read_short on it
       cseek <offset>                        -> ret=<n>|-1     gsm610_seek called directly (psf->seek), not through sf_seek
 -/
 import SfModel.GsmFile
@@ -41,6 +43,7 @@ structure DS where
   blocks : Nat := 0
   rh   : Option Block.RHandle := none
   ws   : Option (Block.WState State) := none
+  ch   : Option CHandle := none
   sticky : Bool := false
 
 def fillA5 (ty : Ty) (n : Nat) : String := String.join (List.replicate (n * ty.bits / 8) "a5")
@@ -83,6 +86,28 @@ def runLine (ds : DS) (line : String) : DS × Option String :=
     let st := ds.ws.getD (writeInit ds.cfg)
     ({ ds with ws := none }, some ("data=" ++ hexBytes (closeBytes ds.cfg st)))
   | ["skip"] => (ds, some "skipped")
+  | "cload" :: rest =>
+    let (hex, opts) : String × List String :=
+      match rest with
+      | h :: o => if (h.splitOn "=").length > 1 then ("", rest) else (h, o)
+      | [] => ("", [])
+    let bytes := parseHexBytes hex
+    let h := CHandle.open ds.cfg ds.wavex bytes (kvNat opts "dlen" bytes.length) ((kvGet opts "hdr").bind (·.toNat?))
+    ({ ds with ch := some h }, some s!"frames={h.frames}")
+  | ["cr", nS] =>
+    match ds.ch with
+    | some h =>
+      let n := nS.toNat!
+      let (h', d, ret) := h.readS n
+      ({ ds with ch := some h' }, some s!"ret={ret} data={showItems .s16 d ++ fillA5 .s16 (n - d.length)}")
+    | none => (ds, some "bad-op")
+  | ["cseek", offS] =>
+    match ds.ch with
+    | some h =>
+      let off : Int := if offS.startsWith "-" then - ((offS.drop 1).toString.toNat?.getD 0 : Int) else (offS.toNat?.getD 0 : Int)
+      let (h', r) := h.cseek off
+      ({ ds with ch := some h' }, some s!"ret={r}")
+    | none => (ds, some "bad-op")
   | _ => (ds, some "bad-op")
 
 partial def loop (h : IO.FS.Stream) (ds : DS) : IO Unit := do
